@@ -165,7 +165,8 @@ func runC16(seed int64, tier string, sc *Script, withBody bool) map[string]any {
 		cases = 6000
 	}
 	evals := 0
-	scopePool := []string{"repository:a:pull", "repository:a:push", "repository:a:pull,push", "repository:b:pull", "registry:catalog:*", "repository:a:*"}
+	scopePool := []string{"repository:a:pull", "repository:a:push", "repository:a:pull,push", "repository:b:pull", "registry:catalog:*", "repository:a:*",
+		"repository:h:5000/a:pull", "repository:h:5000/a:push"}
 	for ci := 0; ci < cases; ci++ {
 		sc.Case("auth-history")
 		sc.NonTrivial()
@@ -502,7 +503,9 @@ func runC16(seed int64, tier string, sc *Script, withBody bool) map[string]any {
 	sc.Case("clean-scopes")
 	sc.NonTrivial()
 	pool := []string{"repository:a:pull", "repository:a:push", "repository:a:push,pull", "repository:a:*", "repository:a-b:pull",
-		"repository:b:pull,pull", "registry:catalog:*", "repository:a:", "repository:a:,", "a", "x:y", "t:n:m:act", "repository:a:pull,*", ":n:a", "r::a"}
+		"repository:b:pull,pull", "registry:catalog:*", "repository:a:", "repository:a:,", "a", "x:y", "t:n:m:act", "repository:a:pull,*", ":n:a", "r::a",
+		// resource names that contain colons (a registry host:port prefix): the actions are what follows the last colon
+		"repository:h:5000/a:pull", "repository:h:5000/a:push", "repository:h:5000/a:*", "t:n:m:other"}
 	emit := func(l []string) {
 		got := auth.CleanScopes(append([]string(nil), l...))
 		in, out := "-", "-"
